@@ -2818,19 +2818,16 @@ func (te *TemplateEngine) processImagePlaceholdersInParagraph(para *Paragraph, d
 	// 检查是否包含图片占位符（支持两种格式）
 	// 1. 原始模板格式：{{#image imageName}}
 	// 2. 渲染后格式：[IMAGE:imageName]
-	originalImagePattern := regexp.MustCompile(`\{\{#image\s+(\w+)\}\}`)
-	renderedImagePattern := regexp.MustCompile(`\[IMAGE:(\w+)\]`)
+	// 两种格式用同一个正则匹配，保证占位符按其在文本中出现的顺序处理
+	imagePattern := regexp.MustCompile(`\{\{#image\s+(\w+)\}\}|\[IMAGE:(\w+)\]`)
 
-	originalMatches := originalImagePattern.FindAllStringSubmatch(fullText, -1)
-	renderedMatches := renderedImagePattern.FindAllStringSubmatch(fullText, -1)
-
-	// 合并两种格式的匹配结果
 	allMatches := make([][2]string, 0)
-	for _, match := range originalMatches {
-		allMatches = append(allMatches, [2]string{match[0], match[1]})
-	}
-	for _, match := range renderedMatches {
-		allMatches = append(allMatches, [2]string{match[0], match[1]})
+	for _, match := range imagePattern.FindAllStringSubmatch(fullText, -1) {
+		imageName := match[1]
+		if imageName == "" {
+			imageName = match[2]
+		}
+		allMatches = append(allMatches, [2]string{match[0], imageName})
 	}
 
 	if len(allMatches) == 0 {
